@@ -471,3 +471,19 @@ Definition rollback (w : world) (id : nat) : rb_result * world :=
       end
     end
   end.
+
+(* ---------- dry-run wrappers (cli/commands/deploy.rs run, handlers/evolve.rs evolve_restore_in) ---------- *)
+(* will_apply = apply && !dry_run; the change list is computed before and independently of it *)
+Definition deploy_cli (json yes apply dry adopt : bool) (flt : option str) (w : world)
+           (roots : list root) (D : list dfile) : list change * option outcome * world :=
+  let pl := plan (files w) D (managed_for_plan w roots flt) in
+  if apply && negb dry then
+    let '(out, w') := deploy_apply_in (if json then SJsonYes else SInteractive) yes adopt w roots D pl in
+    (pl, Some out, w')
+  else (pl, None, w).
+
+(* evolve restore: the reported items are the desired files whose path is missing *)
+Definition restore_items (f : fs) (D : list dfile) : list dfile :=
+  filter (fun d => negb (exists_at f (dpath d))) D.
+Definition restore_cli (dry : bool) (f : fs) (D : list dfile) : list dfile * fs :=
+  (restore_items f D, if dry then f else restore_cmd f D).
